@@ -1,5 +1,857 @@
-(* Proofs/DatProofs.v -- C15 lemmas (skeleton) *)
+(* Proofs/DatProofs.v -- C15 lemmas: struct codec, credential round trip, signed range, response binding. *)
 From Coq Require Import ZArith NArith List Bool Lia.
 Require Import Value Bytes BytesProofs Sha2 GenRot RotModel GenDat DatModel.
 Import ListNotations.
 Local Open Scope N_scope.
+Local Arguments le_enc : simpl never.
+Local Arguments le_dec : simpl never.
+Local Arguments N.ltb : simpl never.
+Local Arguments N.pow : simpl never.
+Local Arguments N.mul : simpl never.
+Local Arguments zeros : simpl never.
+Local Arguments firstn : simpl never.
+Local Arguments skipn : simpl never.
+
+(* ====================================================================================== *)
+(* lists                                                                                    *)
+(* ====================================================================================== *)
+Lemma firstn_app_len {A} (a b : list A) n : n = length a -> firstn n (a ++ b) = a.
+Proof. intros ->. rewrite firstn_app, Nat.sub_diag, firstn_all. simpl. apply app_nil_r. Qed.
+Lemma skipn_app_len {A} (a b : list A) n : n = length a -> skipn n (a ++ b) = b.
+Proof. intros ->. rewrite skipn_app, Nat.sub_diag, skipn_all. reflexivity. Qed.
+Lemma skipn_app_more {A} (a b : list A) n k : n = length a -> skipn (n + k) (a ++ b) = skipn k b.
+Proof.
+  intros ->. rewrite skipn_app. rewrite skipn_all2 by lia. simpl. f_equal. lia.
+Qed.
+Lemma firstn_app_more {A} (a b : list A) n k : n = length a -> firstn (n + k) (a ++ b) = a ++ firstn k b.
+Proof.
+  intros ->. rewrite firstn_app. rewrite firstn_all2 by lia. f_equal. f_equal. lia.
+Qed.
+Lemma zeros_length n : length (zeros n) = n.
+Proof. apply repeat_length. Qed.
+Lemma nlen_nat {A} (a : list A) : N.to_nat (nlen a) = length a.
+Proof. unfold nlen. lia. Qed.
+Lemma eqb_list_refl a : eqb_list a a = true.
+Proof. now apply eqb_list_spec. Qed.
+
+Lemma app_inj_len {A} (a b c d : list A) : length a = length c -> a ++ b = c ++ d -> a = c /\ b = d.
+Proof.
+  revert c; induction a as [|x a IH]; intros [|y c] HL H; simpl in *; try discriminate.
+  - now split.
+  - inversion H; subst. destruct (IH c) as [-> ->]; [lia|assumption|]. now split.
+Qed.
+Lemma app_inj_tail_len {A} (a b c d : list A) : length b = length d -> a ++ b = c ++ d -> a = c /\ b = d.
+Proof.
+  intros HL H. assert (HA : length a = length c).
+  { apply (f_equal (@length A)) in H. rewrite !app_length in H. lia. }
+  now apply app_inj_len.
+Qed.
+
+(* ====================================================================================== *)
+(* the struct codec                                                                         *)
+(* ====================================================================================== *)
+Definition fval_ok (i : fitem) (v : fval) : Prop :=
+  match i, v with
+  | FU16, XI n => n < 65536
+  | FU32, XI n => n < 4294967296
+  | FS k, XB b => length b = k
+  | _, _ => False
+  end.
+
+Lemma pack_s_exact n b : length b = n -> pack_s n b = b.
+Proof. intros <-. unfold pack_s. rewrite firstn_all, Nat.sub_diag. simpl. apply app_nil_r. Qed.
+Lemma pack_s_length n b : length (pack_s n b) = n.
+Proof.
+  unfold pack_s. rewrite app_length, firstn_length, zeros_length. lia.
+Qed.
+
+Lemma pack1_ok i v : fval_ok i v -> exists b, pack1 i v = Ok b /\ length b = fwidth i.
+Proof.
+  destruct i, v; simpl; intros H; try contradiction.
+  - apply N.ltb_lt in H. rewrite H. eexists; split; [reflexivity|apply le_enc_length].
+  - apply N.ltb_lt in H. rewrite H. eexists; split; [reflexivity|apply le_enc_length].
+  - eexists; split; [reflexivity|]. apply pack_s_length.
+Qed.
+Lemma pack1_length i v b : pack1 i v = Ok b -> length b = fwidth i.
+Proof.
+  destruct i, v; simpl; try discriminate.
+  - destruct (v <? 65536); [|discriminate]. intros H; inversion H; subst. apply le_enc_length.
+  - destruct (v <? 4294967296); [|discriminate]. intros H; inversion H; subst. apply le_enc_length.
+  - intros H; inversion H; subst. apply pack_s_length.
+Qed.
+Lemma pack_length f : forall vs b, pack f vs = Ok b -> length b = calcsize f.
+Proof.
+  induction f as [|i f IH]; intros [|v vs] b; simpl; try discriminate.
+  - intros H; inversion H; reflexivity.
+  - destruct (pack1 i v) as [a|] eqn:E1; [|discriminate]. simpl.
+    destruct (pack f vs) as [c|] eqn:E2; [|discriminate]. simpl. intros H; inversion H; subst.
+    rewrite app_length, (pack1_length _ _ _ E1), (IH _ _ E2). reflexivity.
+Qed.
+
+Lemma unpack1_pack1 i v b rest : fval_ok i v -> pack1 i v = Ok b -> unpack1 i (b ++ rest) = v.
+Proof.
+  destruct i, v; simpl; intros H; try contradiction.
+  - pose proof H as H'. apply N.ltb_lt in H'. rewrite H'. intros E; inversion E; subst.
+    rewrite firstn_app_len by (now rewrite le_enc_length). f_equal. apply le_dec_enc_small. simpl. lia.
+  - pose proof H as H'. apply N.ltb_lt in H'. rewrite H'. intros E; inversion E; subst.
+    rewrite firstn_app_len by (now rewrite le_enc_length). f_equal. apply le_dec_enc_small. simpl. lia.
+  - intros E; inversion E; subst. rewrite pack_s_exact by reflexivity. now rewrite firstn_app_len.
+Qed.
+
+Lemma struct_roundtrip_lemma f : forall vs b rest,
+  Forall2 fval_ok f vs -> pack f vs = Ok b -> unpack f (b ++ rest) = vs.
+Proof.
+  induction f as [|i f IH]; intros vs b rest HF; inversion HF as [|? v ? vs' Hv Hvs]; subst; simpl.
+  - reflexivity.
+  - destruct (pack1 i v) as [a|] eqn:E1; [|discriminate]. simpl.
+    destruct (pack f vs') as [c|] eqn:E2; [|discriminate]. simpl. intros H; inversion H; subst.
+    rewrite <- app_assoc. rewrite (unpack1_pack1 _ _ _ _ Hv E1). f_equal.
+    rewrite skipn_app_len by (symmetry; apply (pack1_length _ _ _ E1)). now apply IH.
+Qed.
+Lemma pack_total f : forall vs, Forall2 fval_ok f vs -> exists b, pack f vs = Ok b.
+Proof.
+  induction f as [|i f IH]; intros vs HF; inversion HF as [|? v ? vs' Hv Hvs]; subst; simpl.
+  - now eexists.
+  - destruct (pack1_ok _ _ Hv) as (a & -> & _). destruct (IH _ Hvs) as (c & ->). simpl. now eexists.
+Qed.
+Lemma pack_app f g : forall vs ws a b, pack f vs = Ok a -> pack g ws = Ok b -> pack (f ++ g) (vs ++ ws) = Ok (a ++ b).
+Proof.
+  induction f as [|i f IH]; intros [|v vs] ws a b; simpl; try discriminate.
+  - intros H; inversion H; subst. now intros ->.
+  - destruct (pack1 i v) as [x|]; [|discriminate]. simpl.
+    destruct (pack f vs) as [y|] eqn:E; [|discriminate]. simpl. intros H; inversion H; subst. intros Hg.
+    rewrite (IH _ _ _ _ E Hg). simpl. now rewrite app_assoc.
+Qed.
+Lemma unpack_from_ok f d off : (off + calcsize f <= length d)%nat -> unpack_from f d off = Ok (unpack f (skipn off d)).
+Proof.
+  intros H. unfold unpack_from. destruct (length d <? off + calcsize f)%nat eqn:E; [|reflexivity].
+  apply Nat.ltb_lt in E. lia.
+Qed.
+(* the full statement used as property theorem *)
+Lemma struct_roundtrip_full f vs :
+  Forall2 fval_ok f vs ->
+  exists b, pack f vs = Ok b /\ length b = calcsize f /\
+            forall pre rest, unpack_from f (pre ++ b ++ rest) (length pre) = Ok vs.
+Proof.
+  intros HF. destruct (pack_total f vs HF) as (b & Hb). exists b. split; [assumption|]. split; [now apply pack_length in Hb|].
+  intros pre rest. rewrite unpack_from_ok.
+  - rewrite skipn_app_len by reflexivity. f_equal. now apply struct_roundtrip_lemma.
+  - rewrite !app_length, (pack_length _ _ _ Hb). lia.
+Qed.
+Example struct_roundtrip_nontrivial : Forall2 fval_ok [FU16; FU32; FS 3] [XI 258; XI 1; XB [7; 8; 9]].
+Proof. repeat constructor; simpl; lia. Qed.
+
+(* ====================================================================================== *)
+(* responses                                                                                *)
+(* ====================================================================================== *)
+Lemma u32_length v b : u32 v = Ok b -> length b = 4%nat.
+Proof. unfold u32. destruct (v <? 4294967296); [|discriminate]. intros H; inversion H. apply le_enc_length. Qed.
+Lemma u32_inj v v' b : u32 v = Ok b -> u32 v' = Ok b -> v = v'.
+Proof.
+  unfold u32. destruct (v <? 4294967296) eqn:E; [|discriminate]. destruct (v' <? 4294967296) eqn:E'; [|discriminate].
+  intros H H'; inversion H; inversion H'; subst. apply N.ltb_lt in E, E'.
+  assert (D : le_dec (le_enc 4 v) = le_dec (le_enc 4 v')) by congruence.
+  rewrite !le_dec_enc_small in D by (simpl; lia). assumption.
+Qed.
+Lemma u32_dec v b : u32 v = Ok b -> le_dec b = v.
+Proof.
+  unfold u32. destruct (v <? 4294967296) eqn:E; [|discriminate]. intros H; inversion H. apply N.ltb_lt in E.
+  apply le_dec_enc_small. simpl. lia.
+Qed.
+
+(* the response starts with the credential, then the beacon, then (ECC protocols) the uuid, then the signature *)
+Lemma dar_embeds_lemma u dcb beacon uuid sig r :
+  length uuid = 16%nat -> dar_export u dcb beacon uuid sig = Ok r ->
+  exists bb, u32 beacon = Ok bb /\ r = dcb ++ bb ++ (if u then uuid else []) ++ sig
+             /\ firstn (length dcb) r = dcb /\ le_dec (firstn 4 (skipn (length dcb) r)) = beacon
+             /\ (u = true -> firstn 16 (skipn (length dcb + 4) r) = uuid)
+             /\ skipn (length dcb + 4 + (if u then 16 else 0)) r = sig.
+Proof.
+  intros HU. unfold dar_export, dar_common. destruct (u32 beacon) as [bb|] eqn:EB; [|discriminate]. simpl.
+  destruct sig as [|s0 sig]; [discriminate|]. intros H; inversion H; subst. clear H.
+  pose proof (u32_length _ _ EB) as LB. exists bb. split; [reflexivity|].
+  rewrite (pack_s_exact 16 uuid HU).
+  split; [now rewrite <- !app_assoc|]. rewrite <- !app_assoc.
+  split; [now apply firstn_app_len|].
+  split; [rewrite skipn_app_len by reflexivity; rewrite firstn_app_len by (now rewrite LB); now apply u32_dec|].
+  split.
+  - intros ->. rewrite skipn_app_more by reflexivity. rewrite skipn_app_len by (now rewrite LB). now apply firstn_app_len.
+  - destruct u.
+    + rewrite <- Nat.add_assoc. rewrite skipn_app_more by reflexivity.
+      rewrite skipn_app_more by (now rewrite LB). now apply skipn_app_len.
+    + rewrite Nat.add_0_r. rewrite skipn_app_more by reflexivity. simpl app. now apply skipn_app_len.
+Qed.
+
+(* injectivity of the signed message: credential, beacon, uuid and challenge are all determined by it *)
+Lemma dar_binds_lemma u dcb beacon uuid ch dcb' beacon' uuid' ch' m :
+  length uuid = 16%nat -> length uuid' = 16%nat -> length ch = 32%nat -> length ch' = 32%nat ->
+  dar_tbs u dcb beacon uuid ch = Ok m -> dar_tbs u dcb' beacon' uuid' ch' = Ok m ->
+  dcb = dcb' /\ beacon = beacon' /\ (u = true -> uuid = uuid') /\ ch = ch'.
+Proof.
+  intros HU HU' HC HC'. unfold dar_tbs, dar_common.
+  destruct (u32 beacon) as [bb|] eqn:EB; [|discriminate]. destruct (u32 beacon') as [bb'|] eqn:EB'; [|discriminate]. simpl.
+  intros H H'; inversion H; subst; inversion H' as [H2]. clear H H'.
+  rewrite !(pack_s_exact 16) in H2 by assumption.
+  pose proof (u32_length _ _ EB) as LB. pose proof (u32_length _ _ EB') as LB'.
+  apply app_inj_tail_len in H2 as [H2 ->]; [|lia].
+  destruct u.
+  - rewrite !app_assoc in H2. apply app_inj_tail_len in H2 as [H2 ->]; [|lia].
+    apply app_inj_tail_len in H2 as [-> H3]; [|lia]. subst bb'.
+    repeat split; try reflexivity. now apply (u32_inj _ _ _ EB EB').
+  - rewrite !app_nil_r in H2. apply app_inj_tail_len in H2 as [-> H3]; [|lia]. subst bb'.
+    repeat split; try reflexivity; [now apply (u32_inj _ _ _ EB EB')|discriminate].
+Qed.
+Example dar_binds_nontrivial :
+  exists m, dar_tbs true [1; 2] 7 (zeros 16) (zeros 32) = Ok m /\ length m = 54%nat.
+Proof. eexists. split; [vm_compute; reflexivity|reflexivity]. Qed.
+
+(* ====================================================================================== *)
+(* numbers, key blobs (small facts re-proved here; C03's RotProofs is not imported)         *)
+(* ====================================================================================== *)
+Lemma dat_le_encf_eq w n : le_encf w n = le_enc w n.
+Proof.
+  revert n; induction w as [|w IH]; intros n; [reflexivity|].
+  cbn [le_encf]. unfold le_enc; fold le_enc. rewrite IH. f_equal.
+  - change 255 with (N.ones 8). rewrite N.land_ones. reflexivity.
+  - rewrite N.shiftr_div_pow2. reflexivity.
+Qed.
+Lemma dat_be_encf_eq w n : be_encf w n = be_enc w n.
+Proof. unfold be_encf, be_enc. now rewrite dat_le_encf_eq. Qed.
+Lemma dat_be_encf_length w n : length (be_encf w n) = w.
+Proof. rewrite dat_be_encf_eq. apply be_enc_length. Qed.
+Lemma dat_size_lower n : n <> 0 -> 2 ^ (N.size n - 1) <= n.
+Proof.
+  intros Hn. pose proof (N.size_le n) as H.
+  assert (Hs : N.size n <> 0) by (destruct n; [contradiction|simpl; discriminate]).
+  replace (N.size n) with (N.succ (N.size n - 1)) in H by lia.
+  rewrite N.pow_succ_r' in H.
+  destruct n as [|p]; [contradiction|]. simpl N.succ_double in H. lia.
+Qed.
+Lemma dat_size_le_iff n k : N.size n <= k <-> n < 2 ^ k.
+Proof.
+  split; intros H.
+  - eapply N.lt_le_trans; [apply N.size_gt|]. apply N.pow_le_mono_r; lia.
+  - destruct (N.eq_dec n 0) as [->|Hn]; [simpl; lia|].
+    destruct (N.le_gt_cases (N.size n) k) as [|Hgt]; [assumption|exfalso].
+    pose proof (dat_size_lower n Hn) as HL.
+    assert (2 ^ k <= 2 ^ (N.size n - 1)) by (apply N.pow_le_mono_r; lia). lia.
+Qed.
+Lemma dat_to_bytes_ok len v : v < 2 ^ (8 * N.of_nat len) -> to_bytes len v = Ok (be_encf len v).
+Proof. intros H. unfold to_bytes. apply dat_size_le_iff in H. apply N.leb_le in H. now rewrite H. Qed.
+Lemma dat_byte_len_bound v : v < 2 ^ (8 * N.of_nat (byte_len v)).
+Proof.
+  eapply N.lt_le_trans; [apply N.size_gt|]. apply N.pow_le_mono_r; [lia|].
+  unfold byte_len. rewrite N2Nat.id.
+  pose proof (N.div_mod (N.size v + 7) 8). pose proof (N.mod_lt (N.size v + 7) 8). lia.
+Qed.
+Lemma dat_be_dec_be_min v : be_dec (be_min v) = v.
+Proof. unfold be_min. rewrite dat_be_encf_eq. apply be_dec_enc_small. apply dat_byte_len_bound. Qed.
+Lemma dat_be_min_length v : length (be_min v) = byte_len v.
+Proof. apply dat_be_encf_length. Qed.
+Lemma dat_be_dec_be_encf w v : v < 2 ^ (8 * N.of_nat w) -> be_dec (be_encf w v) = v.
+Proof. intros H. rewrite dat_be_encf_eq. now apply be_dec_enc_small. Qed.
+
+Lemma dat_digest_bytes_length c s : length (digest_bytes c s) = (8 * wbytes c)%nat.
+Proof.
+  destruct s as [[[[[[[a b] cc] d] e] f] g] h]. unfold digest_bytes. cbn [map concat].
+  rewrite !app_length, !be_enc_length. simpl. lia.
+Qed.
+Lemma dat_sha256_length m : length (sha256 m) = 32%nat.
+Proof. unfold sha256, sha2. rewrite firstn_length, dat_digest_bytes_length. reflexivity. Qed.
+Lemma dat_sha384_length m : length (sha384 m) = 48%nat.
+Proof. unfold sha384, sha2. rewrite firstn_length, dat_digest_bytes_length. reflexivity. Qed.
+Lemma dat_sha512_length m : length (sha512 m) = 64%nat.
+Proof. unfold sha512, sha2. rewrite firstn_length, dat_digest_bytes_length. reflexivity. Qed.
+Local Opaque sha256 sha384 sha512.
+
+(* RSA keys as the 1.x credentials carry them: modulus of exactly kb bytes, exponent in 4 bytes, numbers `cryptography` accepts *)
+Definition rsa_key_wf (kb : nat) (k : key) : Prop :=
+  match k with
+  | KRsa n e => byte_len n = kb /\ e < 4294967296 /\ rsa_numbers_ok n e = true
+  | KEcc _ _ _ => False
+  end.
+Lemma rsa_export4_ok kb k : rsa_key_wf kb k ->
+  exists b, rsa_export_w 4 k = Ok b /\ length b = (kb + 4)%nat /\ ((kb = 256 \/ kb = 512)%nat -> pub_parse b = Ok k).
+Proof.
+  destruct k as [n e|]; [|contradiction]. intros (Hn & He & Hok). unfold rsa_export_w.
+  rewrite dat_to_bytes_ok by (simpl; lia). cbn [bind]. eexists. split; [reflexivity|].
+  split; [rewrite app_length, dat_be_min_length, dat_be_encf_length; lia|].
+  intros Hkb. unfold pub_parse, raw_decode.
+  assert (L : nlen (be_min n ++ be_encf 4 e) = N.of_nat (kb + 4)).
+  { unfold nlen. now rewrite app_length, dat_be_min_length, dat_be_encf_length, Hn. }
+  rewrite L.
+  assert (F : firstn kb (be_min n ++ be_encf 4 e) = be_min n) by (apply firstn_app_len; now rewrite dat_be_min_length).
+  assert (S : skipn kb (be_min n ++ be_encf 4 e) = be_encf 4 e) by (apply skipn_app_len; now rewrite dat_be_min_length).
+  assert (D : be_dec (be_encf 4 e) = e) by (apply dat_be_dec_be_encf; simpl; lia).
+  destruct Hkb as [-> | ->]; vm_compute (N.of_nat _); cbv beta iota; cbn [N.eqb Pos.eqb]; cbn [find g_rsa_sizes];
+    vm_compute (_ <=? _); cbn [andb]; vm_compute (N.to_nat _);
+    rewrite F, S, dat_be_dec_be_min, D; cbn [bind]; now rewrite Hok.
+Qed.
+
+(* ECC keys: a point of the curve the protocol version names *)
+Definition ecc_key_wf (c : N) (k : key) : Prop :=
+  match k with KEcc c' x y => c' = c /\ on_curve c x y = true | KRsa _ _ => False end.
+Lemma dat_curve_p_bound c : c = 256 \/ c = 384 \/ c = 521 -> curve_p c <= 2 ^ (8 * N.of_nat (coord_size c)).
+Proof. intros [-> | [-> | ->]]; vm_compute; discriminate. Qed.
+Lemma on_curve_bounds c x y : c = 256 \/ c = 384 \/ c = 521 -> on_curve c x y = true ->
+  x < 2 ^ (8 * N.of_nat (coord_size c)) /\ y < 2 ^ (8 * N.of_nat (coord_size c)).
+Proof.
+  intros Hc HO. unfold on_curve in HO. apply andb_true_iff in HO as [H _]. apply andb_true_iff in H as [Hx Hy].
+  apply N.ltb_lt in Hx, Hy. pose proof (dat_curve_p_bound c Hc). split; lia.
+Qed.
+Local Opaque on_curve curve_p curve_b.
+Lemma raw_decode_ecc c x y : c = 256 \/ c = 384 \/ c = 521 -> on_curve c x y = true ->
+  raw_decode (be_encf (coord_size c) x ++ be_encf (coord_size c) y) = Ok (KEcc c x y).
+Proof.
+  intros Hc HO. destruct (on_curve_bounds c x y Hc HO) as [Hx Hy].
+  set (cs := coord_size c) in *.
+  assert (L : length (be_encf cs x ++ be_encf cs y) = (2 * cs)%nat) by (rewrite app_length, !dat_be_encf_length; lia).
+  unfold raw_decode. unfold nlen. rewrite L.
+  replace (2 * cs / 2)%nat with cs by (rewrite Nat.mul_comm, Nat.div_mul; lia).
+  rewrite firstn_app_len, skipn_app_len by (now rewrite dat_be_encf_length).
+  rewrite !dat_be_dec_be_encf by assumption.
+  destruct Hc as [-> | [-> | ->]]; subst cs.
+  - change (N.of_nat (2 * coord_size 256)) with 64. change (64 =? 64) with true. cbv beta iota zeta. now rewrite HO.
+  - change (N.of_nat (2 * coord_size 384)) with 96. change (96 =? 64) with false. change (96 =? 96) with true.
+    cbv beta iota zeta. now rewrite HO.
+  - change (N.of_nat (2 * coord_size 521)) with 132. change (132 =? 64) with false. change (132 =? 96) with false.
+    change (132 =? 132) with true. cbv beta iota zeta. now rewrite HO.
+Qed.
+Lemma ecc_blob_ok c k : c = 256 \/ c = 384 \/ c = 521 -> ecc_key_wf c k ->
+  exists b, raw_key k = Ok b /\ length b = (2 * coord_size c)%nat /\ pub_parse b = Ok k.
+Proof.
+  intros Hc. destruct k as [|c' x y]; [contradiction|]. intros [-> HO].
+  destruct (on_curve_bounds c x y Hc HO) as [Hx Hy].
+  unfold raw_key. rewrite (dat_to_bytes_ok _ _ Hx), (dat_to_bytes_ok _ _ Hy). cbn [bind].
+  eexists. split; [reflexivity|]. split; [rewrite app_length, !dat_be_encf_length; lia|].
+  unfold pub_parse. rewrite (raw_decode_ecc c x y Hc HO). reflexivity.
+Qed.
+
+(* ====================================================================================== *)
+(* tables of fixed-size entries                                                             *)
+(* ====================================================================================== *)
+Lemma slice_app_skip {A} (x y : list A) a b : slice (x ++ y) (length x + a) (length x + b) = slice y a b.
+Proof. unfold slice. rewrite skipn_app_more by reflexivity. f_equal. lia. Qed.
+Lemma chunks_concat k (items : list (list N)) r : Forall (fun x => length x = k) items ->
+  map (fun i => slice (concat items ++ r) (i * k) ((i + 1) * k)) (seq 0 (length items)) = items.
+Proof.
+  induction items as [|x t IH]; intros HF; [reflexivity|]. inversion HF as [|? ? Hx Ht]; subst.
+  cbn [length seq map concat]. f_equal.
+  - unfold slice. rewrite Nat.mul_0_l. replace ((0 + 1) * length x - 0)%nat with (length x) by lia.
+    change (skipn 0 ((x ++ concat t) ++ r)) with ((x ++ concat t) ++ r). rewrite <- app_assoc. now apply firstn_app_len.
+  - rewrite <- seq_shift, map_map. rewrite <- (IH Ht) at 2. apply map_ext. intros i. rewrite <- app_assoc.
+    replace (S i * length x)%nat with (length x + i * length x)%nat by lia.
+    replace ((S i + 1) * length x)%nat with (length x + (i + 1) * length x)%nat by lia. apply slice_app_skip.
+Qed.
+Lemma concat_length_k k (items : list (list N)) : Forall (fun x => length x = k) items -> length (concat items) = (k * length items)%nat.
+Proof.
+  induction items as [|x t IH]; intros HF; [simpl; lia|]. inversion HF; subst. cbn [concat length].
+  rewrite app_length, IH by assumption. lia.
+Qed.
+Lemma concat_zero_chunks j : concat (repeat (zeros 32) j) = zeros (32 * j).
+Proof.
+  induction j as [|j IH]; [reflexivity|]. cbn [repeat concat]. rewrite IH. unfold zeros. rewrite <- repeat_app. f_equal. lia.
+Qed.
+Lemma dat_skipn_skipn {A} (l : list A) : forall a b, skipn a (skipn b l) = skipn (b + a) l.
+Proof.
+  induction l as [|x l IH]; intros a b.
+  - now rewrite !skipn_nil.
+  - destruct b as [|b]; [reflexivity|]. change (skipn (S b) (x :: l)) with (skipn b l).
+    change (skipn (S b + a) (x :: l)) with (skipn (b + a) l). apply IH.
+Qed.
+Lemma skipn_zeros m n : skipn m (zeros n) = zeros (n - m).
+Proof.
+  unfold zeros. revert n; induction m as [|m IH]; intros n; [now rewrite Nat.sub_0_r|].
+  destruct n as [|n]; [reflexivity|]. cbn [repeat]. unfold skipn; fold (@skipn N). apply IH.
+Qed.
+
+(* RotMetaRSA.export: the items in order, zero filled to 128 bytes *)
+Lemma fill_spec items : forall buf i, Forall (fun x => length x = 32%nat) items -> length buf = 128%nat ->
+  (i + length items <= 4)%nat ->
+  rsa_meta_fill buf i items = firstn (32 * i) buf ++ concat items ++ skipn (32 * (i + length items)) buf.
+Proof.
+  induction items as [|x t IH]; intros buf i HF HL HI.
+  - cbn [rsa_meta_fill concat length app]. rewrite Nat.add_0_r. symmetry. apply firstn_skipn.
+  - inversion HF as [|? ? Hx Ht]; subst. cbn [rsa_meta_fill length] in *. 
+    set (buf' := slice_assign buf (i * 32) ((i + 1) * 32) x).
+    assert (HL' : length buf' = 128%nat).
+    { unfold buf', slice_assign. rewrite !app_length, firstn_length, skipn_length. lia. }
+    rewrite (IH buf' (S i) Ht HL') by lia.
+    assert (F : firstn (32 * S i) buf' = firstn (32 * i) buf ++ x).
+    { unfold buf', slice_assign. replace (i * 32)%nat with (32 * i)%nat by lia.
+      replace (32 * S i)%nat with (length (firstn (32 * i) buf) + 32)%nat by (rewrite firstn_length; lia).
+      rewrite firstn_app_more by reflexivity. f_equal. now apply firstn_app_len. }
+    assert (S' : skipn (32 * (S i + length t)) buf' = skipn (32 * (i + S (length t))) buf).
+    { unfold buf', slice_assign. replace (i * 32)%nat with (32 * i)%nat by lia.
+      replace (32 * (S i + length t))%nat with (length (firstn (32 * i) buf) + (32 + 32 * length t))%nat by (rewrite firstn_length; lia).
+      rewrite skipn_app_more by reflexivity. rewrite skipn_app_more by (now symmetry).
+      rewrite dat_skipn_skipn. f_equal. lia. }
+    rewrite F, S'. cbn [concat]. now rewrite <- !app_assoc.
+Qed.
+Lemma rsa_meta_export_spec items : Forall (fun x => length x = 32%nat) items -> (length items <= 4)%nat ->
+  rsa_meta_fill (zeros 128) 0 items = concat (items ++ repeat (zeros 32) (4 - length items)).
+Proof.
+  intros HF HL. rewrite (fill_spec items (zeros 128) 0 HF (zeros_length 128)) by lia.
+  rewrite Nat.mul_0_r. change (firstn 0 (zeros 128)) with (@nil N). cbn [app]. rewrite concat_app. f_equal.
+  rewrite skipn_zeros, concat_zero_chunks. f_equal. lia.
+Qed.
+Lemma all_zero_zeros n : all_zero (zeros n) = true.
+Proof. unfold all_zero, zeros. induction n; [reflexivity|]. cbn [repeat forallb]. now rewrite IHn. Qed.
+Definition rsa_items_wf (items : list (list N)) : Prop :=
+  (length items <= 4)%nat /\ Forall (fun x => length x = 32%nat) items /\ Forall (fun x => all_zero x = false) items.
+Lemma rsa_meta_roundtrip items : rsa_items_wf items ->
+  rsa_meta_parse (rsa_meta_fill (zeros 128) 0 items) = Ok (RMRsa items) /\ length (rsa_meta_fill (zeros 128) 0 items) = 128%nat.
+Proof.
+  intros (HL & H32 & HZ). rewrite (rsa_meta_export_spec items H32 HL).
+  set (full := items ++ repeat (zeros 32) (4 - length items)).
+  assert (HF : Forall (fun x => length x = 32%nat) full).
+  { unfold full. apply Forall_app. split; [assumption|]. apply Forall_forall. intros x Hx. apply repeat_spec in Hx. subst. apply zeros_length. }
+  assert (HN : length full = 4%nat) by (unfold full; rewrite app_length, repeat_length; lia).
+  assert (LC : length (concat full) = 128%nat) by (rewrite (concat_length_k 32 full HF), HN; reflexivity).
+  split; [|exact LC]. unfold rsa_meta_parse, nlen. rewrite LC. change (N.of_nat 128 <? 128) with false. cbv iota.
+  change [0; 1; 2; 3]%nat with (seq 0 4). replace (seq 0 4) with (seq 0 (length full)) by (now rewrite HN).
+  pose proof (chunks_concat 32 full [] HF) as HC. rewrite app_nil_r in HC.
+  rewrite HC.
+  do 2 f_equal. unfold full. rewrite filter_app.
+  assert (F1 : filter (fun it => negb (all_zero it)) items = items).
+  { clear -HZ. induction items as [|x t IH]; [reflexivity|]. inversion HZ; subst. cbn [filter]. rewrite H1. cbn [negb]. now rewrite IH. }
+  assert (F2 : forall j, filter (fun it => negb (all_zero it)) (repeat (zeros 32) j) = []).
+  { induction j as [|j IH]; [reflexivity|]. cbn [repeat filter]. rewrite all_zero_zeros. exact IH. }
+  rewrite F1, F2. apply app_nil_r.
+Qed.
+
+(* ====================================================================================== *)
+(* credential round trip: RSA (protocol 1.0 / 1.1)                                          *)
+(* ====================================================================================== *)
+Lemma unpack_firstn f : forall vs b rest k,
+  Forall2 fval_ok f vs -> pack f vs = Ok b -> unpack (firstn k f) (b ++ rest) = firstn k vs.
+Proof.
+  induction f as [|i f IH]; intros vs b rest k HF; inversion HF as [|? v ? vs' Hv Hvs]; subst.
+  - destruct k; reflexivity.
+  - cbn [pack]. destruct (pack1 i v) as [a|] eqn:E1; [|discriminate]. cbn [bind].
+    destruct (pack f vs') as [c|] eqn:E2; [|discriminate]. cbn [bind]. intros H; inversion H; subst.
+    destruct k as [|k]; [reflexivity|]. change (firstn (S k) (i :: f)) with (i :: firstn k f).
+    change (firstn (S k) (v :: vs')) with (v :: firstn k vs'). cbn [unpack]. rewrite <- app_assoc.
+    rewrite (unpack1_pack1 _ _ _ _ Hv E1). f_equal.
+    rewrite skipn_app_len by (symmetry; apply (pack1_length _ _ _ E1)). now apply IH.
+Qed.
+
+Definition u32_ok (v : N) : Prop := v < 4294967296.
+Definition rsa_kb (mi : N) : nat := if mi =? 0 then 256%nat else 512%nat.
+Definition wf_dc_rsa (d : dc) : Prop :=
+  d_major d = 1 /\ (d_minor d = 0 \/ d_minor d = 1) /\ u32_ok (d_socc d) /\ length (d_uuid d) = 16%nat /\
+  (exists items, d_meta d = RMRsa items /\ rsa_items_wf items) /\
+  rsa_key_wf (rsa_kb (d_minor d)) (d_dck d) /\ u32_ok (d_socu d) /\ u32_ok (d_vu d) /\ u32_ok (d_beacon d) /\
+  rsa_key_wf (rsa_kb (d_minor d)) (d_rot d) /\ length (d_sig d) = rsa_kb (d_minor d).
+
+Lemma pack_one_s n b : length b = n -> pack [FS n] [XB b] = Ok b.
+Proof. intros H. cbn [pack pack1 bind]. now rewrite (pack_s_exact n b H), app_nil_r. Qed.
+
+Lemma dc_roundtrip_rsa d : wf_dc_rsa d ->
+  exists b t, dc_tbs CRsa d = Ok t /\ dc_export CRsa d = Ok b /\ b = t ++ d_sig d /\ forall extra, rsa_parse (b ++ extra) = Ok d.
+Proof.
+  destruct d as [maj mi socc uuid meta dck socu vu beacon rot sig]. unfold wf_dc_rsa. cbn [d_major d_minor d_socc d_uuid d_meta d_dck d_socu d_vu d_beacon d_rot d_sig].
+  intros (-> & Hmi & Hsocc & Huuid & (items & -> & Hitems) & Hdck & Hsocu & Hvu & Hbeacon & Hrot & Hsig).
+  destruct (rsa_meta_roundtrip items Hitems) as [Hmp Hml].
+  set (mb := rsa_meta_fill (zeros 128) 0 items) in *.
+  assert (Hkb : (rsa_kb mi = 256 \/ rsa_kb mi = 512)%nat) by (destruct Hmi as [-> | ->]; [now left|now right]).
+  destruct (rsa_export4_ok _ _ Hdck) as (db & Edb & Ldb & Pdb). specialize (Pdb Hkb).
+  destruct (rsa_export4_ok _ _ Hrot) as (rb & Erb & Lrb & Prb). specialize (Prb Hkb).
+  set (kb := rsa_kb mi) in *.
+  set (vs := [XI 1; XI mi; XI socc; XB uuid; XB mb; XB db; XI socu; XI vu; XI beacon; XB rb]).
+  assert (HV : Forall2 fval_ok (rsa_fmt (kb + 4)) vs).
+  { unfold rsa_fmt, vs. repeat constructor; cbn [fval_ok]; try assumption; try lia. }
+  destruct (pack_total _ _ HV) as (t & Et).
+  assert (Eks : rsa_key_size mi = Ok (kb + 4)%nat) by (destruct Hmi as [-> | ->]; reflexivity).
+  assert (Esg : rsa_sig_size mi = Ok kb) by (destruct Hmi as [-> | ->]; reflexivity).
+  assert (Etbs : dc_tbs CRsa {| d_major := 1; d_minor := mi; d_socc := socc; d_uuid := uuid; d_meta := RMRsa items; d_dck := dck;
+                                d_socu := socu; d_vu := vu; d_beacon := beacon; d_rot := rot; d_sig := sig |} = Ok t).
+  { unfold dc_tbs, dc_format. cbn [d_minor]. rewrite Eks. cbn [bind]. unfold dc_order, rsa_order. cbn [map_res].
+    unfold field_val. cbn [N.eqb Pos.eqb]. cbn [d_major d_minor d_socc d_uuid d_meta d_dck d_socu d_vu d_beacon d_rot].
+    unfold rot_blob, dck_blob. cbn [d_dck d_rot]. change (N.to_nat (fst g_rsa_exp_len)) with 4%nat.
+    change (N.to_nat (snd g_rsa_exp_len)) with 4%nat. rewrite Edb, Erb. cbn [rotmeta_export res_map bind]. fold mb. exact Et. }
+  assert (Hne : sig <> []) by (intros ->; cbn [length] in Hsig; unfold kb, rsa_kb in Hsig; destruct (mi =? 0); discriminate).
+  exists (t ++ sig), t. split; [exact Etbs|]. split.
+  { unfold dc_export. cbn [d_sig]. destruct sig as [|s0 sg]; [contradiction|]. rewrite Etbs. cbn [bind].
+    unfold dc_sig_width. cbn [d_minor d_sig]. rewrite Esg. cbn [bind]. now rewrite (pack_s_exact kb _ Hsig). }
+  split; [reflexivity|]. intros extra.
+  (* parse *)
+  assert (HV2 : Forall2 fval_ok (rsa_fmt (kb + 4) ++ [FS kb]) (vs ++ [XB sig])).
+  { apply Forall2_app; [exact HV|]. repeat constructor. exact Hsig. }
+  assert (EP : pack (rsa_fmt (kb + 4) ++ [FS kb]) (vs ++ [XB sig]) = Ok (t ++ sig)) by (apply pack_app; [exact Et|now apply pack_one_s]).
+  pose proof (pack_length _ _ _ EP) as LP.
+  unfold rsa_parse.
+  assert (U1 : unpack_from [FU16; FU16] ((t ++ sig) ++ extra) 0 = Ok [XI 1; XI mi]).
+  { rewrite unpack_from_ok.
+    - change (skipn 0 ((t ++ sig) ++ extra)) with ((t ++ sig) ++ extra).
+      f_equal. exact (unpack_firstn _ _ _ extra 2 HV2 EP).
+    - rewrite app_length, LP. unfold rsa_fmt. cbn [calcsize app fold_right fwidth]. lia. }
+  rewrite U1. cbn [bind nth xi]. assert (Ev : version_ok 1 mi = true) by (destruct Hmi as [-> | ->]; reflexivity).
+  rewrite Ev. cbn [negb]. rewrite Eks, Esg. cbn [bind].
+  assert (U2 : unpack_from (rsa_fmt (kb + 4) ++ [FS kb]) ((t ++ sig) ++ extra) 0 = Ok (vs ++ [XB sig])).
+  { rewrite unpack_from_ok by (rewrite app_length, LP; lia). change (skipn 0 ((t ++ sig) ++ extra)) with ((t ++ sig) ++ extra).
+    f_equal. exact (struct_roundtrip_lemma _ _ _ extra HV2 EP). }
+  rewrite U2. cbn [bind]. unfold vs. cbn [app nth xb xi]. rewrite Hmp. cbn [bind]. rewrite Pdb. cbn [bind]. rewrite Prb. cbn [bind].
+  reflexivity.
+Qed.
+
+(* ====================================================================================== *)
+(* credential round trip: ECC (protocol 2.0 / 2.1 / 2.2)                                    *)
+(* ====================================================================================== *)
+Lemma small_cases n : n < 5 -> n = 0 \/ n = 1 \/ n = 2 \/ n = 3 \/ n = 4.
+Proof. intros H. lia. Qed.
+Lemma flags_roundtrip used cnt : flags_validate used cnt = true ->
+  exists fb, flags_export used cnt = Ok fb /\ length fb = 4%nat /\ flags_parse fb = Ok (used, cnt).
+Proof.
+  unfold flags_validate. intros H. apply andb_true_iff in H as [H1 H2].
+  apply negb_true_iff, N.ltb_ge in H1. apply negb_true_iff, N.ltb_ge in H2.
+  assert (Hc : cnt < 5) by lia. assert (Hu : used < 5) by lia.
+  destruct (small_cases _ Hc) as [-> | [-> | [-> | [-> | ->]]]];
+    destruct (small_cases _ Hu) as [-> | [-> | [-> | [-> | ->]]]]; try lia;
+    (eexists; split; [vm_compute; reflexivity|split; vm_compute; reflexivity]).
+Qed.
+
+Definition ecc_curve (mi : N) : N := if mi =? 0 then 256 else if mi =? 1 then 384 else 521.
+Definition ecc_hs (mi : N) : N := if mi =? 0 then 32 else if mi =? 1 then 48 else 66.
+Definition ecc_items_wf (hs cnt : N) (items : list (list N)) : Prop :=
+  (cnt <= 1 -> items = []) /\ (1 < cnt -> length items = N.to_nat cnt /\ Forall (fun x => length x = N.to_nat hs) items).
+Definition wf_dc_ecc (d : dc) : Prop :=
+  d_major d = 2 /\ (d_minor d = 0 \/ d_minor d = 1 \/ d_minor d = 2) /\ u32_ok (d_socc d) /\ length (d_uuid d) = 16%nat /\
+  (exists used cnt items, d_meta d = RMEcc (ecc_hs (d_minor d)) used cnt items /\ flags_validate used cnt = true
+                          /\ ecc_items_wf (ecc_hs (d_minor d)) cnt items) /\
+  ecc_key_wf (ecc_curve (d_minor d)) (d_dck d) /\ u32_ok (d_socu d) /\ u32_ok (d_vu d) /\ u32_ok (d_beacon d) /\
+  ecc_key_wf (ecc_curve (d_minor d)) (d_rot d) /\ length (d_sig d) = (2 * N.to_nat (ecc_hs (d_minor d)))%nat.
+
+Lemma dc_roundtrip_ecc d : wf_dc_ecc d ->
+  exists b t, dc_tbs CEcc d = Ok t /\ dc_export CEcc d = Ok b /\ b = t ++ d_sig d /\ forall extra, ecc_parse (b ++ extra) = Ok d.
+Proof.
+  destruct d as [maj mi socc uuid meta dck socu vu beacon rot sig]. unfold wf_dc_ecc.
+  cbn [d_major d_minor d_socc d_uuid d_meta d_dck d_socu d_vu d_beacon d_rot d_sig].
+  intros (-> & Hmi & Hsocc & Huuid & (used & cnt & items & -> & Hfl & Hit) & Hdck & Hsocu & Hvu & Hbeacon & Hrot & Hsig).
+  set (c := ecc_curve mi) in *. set (hs := ecc_hs mi) in *.
+  assert (Hc : c = 256 \/ c = 384 \/ c = 521) by (unfold c, ecc_curve; destruct Hmi as [-> | [-> | ->]]; auto).
+  assert (Hcs : (2 * coord_size c = 2 * N.to_nat hs)%nat) by (unfold c, hs, ecc_curve, ecc_hs; destruct Hmi as [-> | [-> | ->]]; reflexivity).
+  destruct (ecc_blob_ok c dck Hc Hdck) as (db & Edb & Ldb & Pdb).
+  destruct (ecc_blob_ok c rot Hc Hrot) as (rb & Erb & Lrb & Prb).
+  destruct (flags_roundtrip used cnt Hfl) as (fb & Efb & Lfb & Pfb).
+  set (tb := if (1 <? length items)%nat then concat items else []).
+  set (mb := fb ++ tb).
+  assert (Emb : rotmeta_export (RMEcc hs used cnt items) = Ok mb) by (cbn [rotmeta_export]; rewrite Efb; reflexivity).
+  destruct dck as [|cd xd yd]; [contradiction|]. destruct rot as [|cr xr yr]; [contradiction|].
+  destruct Hdck as [Hcd Hod]. destruct Hrot as [Hcr Hor]. subst cd cr.
+  set (hv := [XI 2; XI mi; XI socc; XB uuid; XI socu; XI vu; XI beacon]).
+  assert (HV1 : Forall2 fval_ok head_fmt hv).
+  { unfold head_fmt, hv. repeat constructor; cbn [fval_ok]; try assumption; try lia. }
+  destruct (pack_total _ _ HV1) as (hb & Ehb). pose proof (pack_length _ _ _ Ehb) as Lhb.
+  change (calcsize head_fmt) with 36%nat in Lhb.
+  set (tail := [FS (length mb); FS (2 * coord_size c); FS (2 * coord_size c)]).
+  assert (Etl : pack tail [XB mb; XB rb; XB db] = Ok (mb ++ rb ++ db)).
+  { unfold tail. cbn [pack pack1 bind]. rewrite !pack_s_exact by (reflexivity || assumption). now rewrite app_nil_r. }
+  set (d0 := {| d_major := 2; d_minor := mi; d_socc := socc; d_uuid := uuid; d_meta := RMEcc hs used cnt items;
+                d_dck := KEcc c xd yd; d_socu := socu; d_vu := vu; d_beacon := beacon; d_rot := KEcc c xr yr; d_sig := sig |}).
+  assert (Etbs : dc_tbs CEcc d0 = Ok (hb ++ mb ++ rb ++ db)).
+  { unfold dc_tbs, dc_format, d0. cbn [d_rot d_dck d_meta]. rewrite Emb. cbn [bind]. unfold dc_order, ecc_order. cbn [map_res].
+    unfold field_val. cbn [N.eqb Pos.eqb]. cbn [d_major d_minor d_socc d_uuid d_meta d_dck d_socu d_vu d_beacon d_rot].
+    unfold rot_blob, dck_blob. cbn [d_dck d_rot is_ecc_key]. rewrite Emb, Edb, Erb. cbn [res_map bind].
+    unfold ecc_fmt. fold tail. change [XI 2; XI mi; XI socc; XB uuid; XI socu; XI vu; XI beacon; XB mb; XB rb; XB db]
+      with (hv ++ [XB mb; XB rb; XB db]). now apply pack_app. }
+  assert (Hne : sig <> []).
+  { intros ->. cbn [length] in Hsig. unfold hs, ecc_hs in Hsig. destruct Hmi as [-> | [-> | ->]]; discriminate. }
+  exists ((hb ++ mb ++ rb ++ db) ++ sig), (hb ++ mb ++ rb ++ db). split; [exact Etbs|]. split.
+  { unfold dc_export. fold d0. cbn [d_sig d0]. destruct sig as [|s0 sg]; [contradiction|]. rewrite Etbs. cbn [bind].
+    unfold dc_sig_width. cbn [bind d_sig]. now rewrite pack_s_exact by reflexivity. }
+  split; [reflexivity|]. intros extra.
+  (* parse *)
+  set (b := ((hb ++ mb ++ rb ++ db) ++ sig) ++ extra).
+  assert (Eb : b = hb ++ fb ++ tb ++ rb ++ db ++ sig ++ extra) by (unfold b, mb; now rewrite <- !app_assoc).
+  assert (Lb : (36 + length mb + 3 * (2 * N.to_nat hs) <= length b)%nat).
+  { unfold b. rewrite !app_length, Lhb, Lrb, Ldb, Hsig, Hcs. lia. }
+  unfold ecc_parse.
+  assert (U1 : unpack_from head_fmt b 0 = Ok hv).
+  { rewrite unpack_from_ok by (change (calcsize head_fmt) with 36%nat; lia). change (skipn 0 b) with b. f_equal.
+    unfold b. rewrite <- !app_assoc. exact (struct_roundtrip_lemma _ _ _ _ HV1 Ehb). }
+  rewrite U1. cbn [bind]. unfold hv. cbn [nth xi xb].
+  assert (Ev : version_ok 2 mi = true) by (destruct Hmi as [-> | [-> | ->]]; reflexivity). rewrite Ev. cbn [negb].
+  assert (Ehs : ecc_hash_size mi = Ok hs) by (unfold hs, ecc_hs; destruct Hmi as [-> | [-> | ->]]; reflexivity). rewrite Ehs. cbn [bind].
+  assert (Em : mem_n hs (map fst g_hash_sizes) = true) by (unfold hs, ecc_hs; destruct Hmi as [-> | [-> | ->]]; reflexivity).
+  rewrite Em. cbn [negb].
+  assert (Emp : ecc_meta_parse hs (skipn 36 b) = Ok (RMEcc hs used cnt items)).
+  { rewrite Eb. rewrite skipn_app_len by (now rewrite Lhb). unfold ecc_meta_parse.
+    rewrite firstn_app_len by (now rewrite Lfb). rewrite Pfb. cbn [bind]. rewrite skipn_app_len by (now rewrite Lfb).
+    do 2 f_equal. destruct Hit as [Hi1 Hi2]. destruct (1 <? cnt) eqn:E1.
+    - apply N.ltb_lt in E1. destruct (Hi2 E1) as [Hl Hf]. unfold tb.
+      assert (E2 : (1 <? length items)%nat = true) by (apply Nat.ltb_lt; lia). rewrite E2. rewrite <- Hl. now apply chunks_concat.
+    - apply N.ltb_ge in E1. now rewrite (Hi1 E1). }
+  rewrite Emp. cbn [bind]. rewrite Emb. cbn [bind].
+  assert (U2 : unpack_from [FS (2 * N.to_nat hs); FS (2 * N.to_nat hs); FS (2 * N.to_nat hs)] b (36 + length mb) = Ok [XB rb; XB db; XB sig]).
+  { rewrite unpack_from_ok by (cbn [calcsize fold_right fwidth]; lia).
+    replace (skipn (36 + length mb) b) with ((rb ++ db ++ sig) ++ extra).
+    2:{ unfold b. rewrite <- !app_assoc. rewrite skipn_app_more by (now rewrite Lhb). now rewrite skipn_app_len. }
+    f_equal. rewrite <- Hcs.
+    assert (HV3 : Forall2 fval_ok [FS (2 * coord_size c); FS (2 * coord_size c); FS (2 * coord_size c)] [XB rb; XB db; XB sig]).
+    { repeat constructor; cbn [fval_ok]; try assumption. now rewrite Hcs. }
+    apply (struct_roundtrip_lemma _ _ _ extra HV3). cbn [pack pack1 bind].
+    rewrite !pack_s_exact by (assumption || (now rewrite Hcs)). now rewrite app_nil_r. }
+  rewrite U2. cbn [bind nth xb]. rewrite Pdb. cbn [bind]. rewrite Prb. cbn [bind]. reflexivity.
+Qed.
+
+(* ====================================================================================== *)
+(* the property lemmas                                                                      *)
+(* ====================================================================================== *)
+Definition wf_dc (c : klass) (d : dc) : Prop :=
+  match c with CRsa => wf_dc_rsa d | CEcc => wf_dc_ecc d | CEle => False end.
+
+(* parse (export dc) = dc, also with anything behind the credential (a response) *)
+Lemma dc_roundtrip_lemma c d : wf_dc c d ->
+  exists b, dc_export c d = Ok b /\ forall extra, dc_parse_class c (b ++ extra) = Ok d.
+Proof.
+  destruct c; cbn [wf_dc]; intros H; [| |contradiction].
+  - destruct (dc_roundtrip_rsa d H) as (b & t & _ & E & _ & P). exists b. split; [exact E|exact P].
+  - destruct (dc_roundtrip_ecc d H) as (b & t & _ & E & _ & P). exists b. split; [exact E|exact P].
+Qed.
+
+(* non-vacuity: concrete well-formed credentials of both classes *)
+Definition g256 : key := KEcc 256 0x6B17D1F2E12C4247F8BCE6E563A440F277037D812DEB33A0F4A13945D898C296
+                                  0x4FE342E2FE1A7F9B8EE7EB4A7C0F9E162BCE33576B315ECECBB6406837BF51F5.
+Definition g521 : key := KEcc 521
+  0x00C6858E06B70404E9CD9E3ECB662395B4429C648139053FB521F828AF606B4D3DBAA14B5E77EFE75928FE1DC127A2FFA8DE3348B3C1856A429BF97E7E31C2E5BD66
+  0x011839296A789A3BC0045C8A5FB42C7D1BD998F54449579B446817AFBD17273E662C97EE72995EF42640C550B9013FAD0761353C7086A272C24088BE94769FD16650.
+Example wf_dc_ecc_nontrivial :
+  wf_dc CEcc {| d_major := 2; d_minor := 0; d_socc := 4; d_uuid := zeros 16;
+                d_meta := RMEcc 32 1 2 [sha256 [1]; sha256 [2]]; d_dck := g256; d_socu := 1; d_vu := 2; d_beacon := 3;
+                d_rot := g256; d_sig := repeat 7 64 |}.
+Proof.
+  cbn [wf_dc]. unfold wf_dc_ecc. cbn [d_major d_minor d_socc d_uuid d_meta d_dck d_socu d_vu d_beacon d_rot d_sig].
+  split; [reflexivity|]. split; [now left|]. split; [unfold u32_ok; lia|]. split; [reflexivity|]. split.
+  - exists 1, 2, [sha256 [1]; sha256 [2]]. split; [reflexivity|]. split; [reflexivity|]. split; [intros H; lia|].
+    intros _. split; [reflexivity|]. repeat constructor; apply dat_sha256_length.
+  - unfold u32_ok. repeat split; try lia; vm_compute; reflexivity.
+Qed.
+Example wf_dc_rsa_nontrivial :
+  wf_dc CRsa {| d_major := 1; d_minor := 0; d_socc := 1; d_uuid := zeros 16; d_meta := RMRsa [repeat 9 32];
+                d_dck := KRsa (2 ^ 2047 + 1) 65537; d_socu := 1; d_vu := 2; d_beacon := 3; d_rot := KRsa (2 ^ 2047 + 3) 3;
+                d_sig := repeat 7 256 |}.
+Proof.
+  cbn [wf_dc]. unfold wf_dc_rsa. cbn [d_major d_minor d_socc d_uuid d_meta d_dck d_socu d_vu d_beacon d_rot d_sig].
+  split; [reflexivity|]. split; [now left|]. split; [unfold u32_ok; lia|]. split; [reflexivity|]. split.
+  - exists [repeat 9 32]. split; [reflexivity|]. split; [cbn [length]; lia|]. split; repeat constructor.
+  - unfold u32_ok, rsa_key_wf. repeat split; try lia; vm_compute; reflexivity.
+Qed.
+
+(* the signed message: everything in front of the signature field, which is the concatenation of the packed fields *)
+Lemma pack_concat f : forall vs t, pack f vs = Ok t ->
+  exists pieces, t = concat pieces /\ Forall2 (fun p iv => pack1 (fst iv) (snd iv) = Ok p) pieces (combine f vs).
+Proof.
+  induction f as [|i f IH]; intros [|v vs] t; cbn [pack]; try discriminate.
+  - intros H; inversion H. exists []. split; [reflexivity|constructor].
+  - destruct (pack1 i v) as [a|] eqn:E1; [|discriminate]. cbn [bind].
+    destruct (pack f vs) as [c|] eqn:E2; [|discriminate]. cbn [bind]. intros H; inversion H; subst.
+    destruct (IH _ _ E2) as (ps & -> & HF). exists (a :: ps). split; [reflexivity|]. cbn [combine]. constructor; assumption.
+Qed.
+Lemma dc_sig_covers_all_lemma c d b : dc_export c d = Ok b ->
+  exists t w f vs pieces,
+    dc_tbs c d = Ok t /\ dc_sig_width c d = Ok w /\ b = t ++ pack_s w (d_sig d) /\ firstn (length t) b = t
+    /\ dc_format c d = Ok f /\ map_res (field_val c d) (dc_order c) = Ok vs
+    /\ t = concat pieces /\ Forall2 (fun p iv => pack1 (fst iv) (snd iv) = Ok p) pieces (combine f vs).
+Proof.
+  unfold dc_export. destruct (d_sig d) as [|s0 sg] eqn:ES; [discriminate|].
+  destruct (dc_tbs c d) as [t|] eqn:ET; [|discriminate]. cbn [bind].
+  destruct (dc_sig_width c d) as [w|] eqn:EW; [|discriminate]. cbn [bind]. intros H; inversion H; subst. clear H.
+  unfold dc_tbs in ET. destruct (dc_format c d) as [f|] eqn:EF; [|discriminate]. cbn [bind] in ET.
+  destruct (map_res (field_val c d) (dc_order c)) as [vs|] eqn:EV; [|discriminate]. cbn [bind] in ET.
+  destruct (pack_concat _ _ _ ET) as (ps & Ec & HF).
+  exists t, w, f, vs, ps. repeat split; try assumption; try reflexivity. now apply firstn_app_len.
+Qed.
+(* every field of the credential is among the packed ones: version, SoC class, uuid, RoT meta, DCK, constraints, beacon
+   (and the RoT public key where the class carries one) *)
+Lemma dc_order_complete c : forall fid, In fid [1; 2; 3; 4; 5; 6; 7; 8; 9] -> In fid (dc_order c).
+Proof. destruct c; intros fid H; cbn in H; cbn; intuition. Qed.
+Lemma dc_order_rot_pub c : c <> CEle -> In 10 (dc_order c).
+Proof. destruct c; intros H; cbn; intuition. Qed.
+
+(* the verifier accepts an exported credential and asks for exactly one signature check: RoT key of the credential,
+   message = all bytes in front of the signature *)
+Lemma dc_verify_lemma c d : wf_dc c d ->
+  exists b t, dc_export c d = Ok b /\ dc_tbs c d = Ok t /\ b = t ++ d_sig d
+              /\ forall extra, dc_verify c (b ++ extra) = Ok (d, SigVerify (d_rot d) t (d_sig d)).
+Proof.
+  intros H. assert (HX : exists b t, dc_tbs c d = Ok t /\ dc_export c d = Ok b /\ b = t ++ d_sig d
+                                     /\ forall extra, dc_parse_class c (b ++ extra) = Ok d).
+  { destruct c; cbn [wf_dc] in H; [| |contradiction].
+    - apply (dc_roundtrip_rsa d H).
+    - apply (dc_roundtrip_ecc d H). }
+  destruct HX as (b & t & Et & Eb & Es & P). exists b, t. repeat split; try assumption.
+  intros extra. unfold dc_verify. rewrite P. cbn [bind]. rewrite Eb. cbn [bind]. do 3 f_equal.
+  subst b. rewrite app_length. replace (length t + length (d_sig d) - length (d_sig d))%nat with (length t) by lia.
+  rewrite <- app_assoc. now apply firstn_app_len.
+Qed.
+
+(* a response built for (credential, beacon, uuid, challenge), presented to a device that issued challenge ch' and has
+   uuid u': the device asks for the DCK signature over credential|beacon|[u']|ch' -- the message that was signed iff
+   ch' = ch (and u' = uuid) *)
+Lemma dar_verify_sound_lemma c d u beacon uuid ch sig2 :
+  wf_dc c d -> length uuid = 16%nat -> length ch = 32%nat -> u32_ok beacon -> sig2 <> [] ->
+  exists b t r m,
+    dc_export c d = Ok b /\ dc_tbs c d = Ok t /\ dar_export u b beacon uuid sig2 = Ok r /\ dar_tbs u b beacon uuid ch = Ok m
+    /\ forall u' ch', length u' = 16%nat -> length ch' = 32%nat ->
+       (u = true /\ u' <> uuid /\ dar_verify c u r u' ch' = Err 1)
+       \/ exists m', dar_tbs u b beacon u' ch' = Ok m'
+                     /\ dar_verify c u r u' ch' = Ok (d, beacon, [SigVerify (d_rot d) t (d_sig d); SigVerify (d_dck d) m' sig2])
+                     /\ (m' = m <-> ch' = ch /\ (u = true -> u' = uuid)).
+Proof.
+  intros Hwf HU HC HB HS. destruct (dc_verify_lemma c d Hwf) as (b & t & Eb & Et & Es & V).
+  assert (EB : exists bb, u32 beacon = Ok bb /\ length bb = 4%nat /\ le_dec bb = beacon).
+  { unfold u32. unfold u32_ok in HB. apply N.ltb_lt in HB. rewrite HB. eexists. split; [reflexivity|].
+    split; [apply le_enc_length|]. apply le_dec_enc_small. apply N.ltb_lt in HB. simpl. lia. }
+  destruct EB as (bb & Ebb & Lbb & Dbb).
+  set (uu := if u then uuid else []).
+  assert (Ecommon : dar_common u b beacon uuid = Ok (b ++ bb ++ uu)).
+  { unfold dar_common. rewrite Ebb. cbn [bind]. unfold uu. destruct u; [now rewrite pack_s_exact|reflexivity]. }
+  exists b, t, ((b ++ bb ++ uu) ++ sig2), ((b ++ bb ++ uu) ++ ch). split; [exact Eb|]. split; [exact Et|]. split.
+  { unfold dar_export. rewrite Ecommon. cbn [bind]. destruct sig2; [contradiction|reflexivity]. } split.
+  { unfold dar_tbs. rewrite Ecommon. reflexivity. }
+  intros u' ch' HU' HC'.
+  assert (ER : (b ++ bb ++ uu) ++ sig2 = b ++ (bb ++ uu ++ sig2)) by (now rewrite <- !app_assoc).
+  destruct u eqn:Eu.
+  - (* ECC protocols *)
+    destruct (eqb_list uuid u') eqn:EQ.
+    + apply eqb_list_spec in EQ. subst u'. right. exists ((b ++ bb ++ uuid) ++ ch'). split.
+      { unfold dar_tbs, dar_common. rewrite Ebb. cbn [bind]. now rewrite pack_s_exact. } split.
+      { unfold dar_verify. rewrite ER, V. cbn [bind]. rewrite Eb. cbn [bind]. rewrite skipn_app_len by reflexivity.
+        unfold uu. rewrite !app_length, Lbb, HU.
+        assert (LT : (4 + (16 + length sig2) <? 4 + 16)%nat = false) by (apply Nat.ltb_ge; lia). rewrite LT.
+        rewrite firstn_app_len by (now rewrite Lbb). rewrite Dbb. rewrite skipn_app_len by (now rewrite Lbb).
+        rewrite firstn_app_len by (now rewrite HU). rewrite eqb_list_refl. cbn [andb negb].
+        do 4 f_equal. f_equal.
+        - f_equal. replace (b ++ bb ++ uuid ++ sig2) with ((b ++ bb ++ uuid) ++ sig2) by (now rewrite <- !app_assoc).
+          apply firstn_app_len. rewrite !app_length; lia.
+        - replace (b ++ bb ++ uuid ++ sig2) with ((b ++ bb ++ uuid) ++ sig2) by (now rewrite <- !app_assoc).
+          apply skipn_app_len. rewrite !app_length; lia. }
+      split.
+      * intros H. apply app_inj_tail_len in H as [_ ->]; [|lia]. split; [reflexivity|reflexivity].
+      * intros [-> _]. reflexivity.
+    + left. split; [reflexivity|]. split; [intros ->; rewrite eqb_list_refl in EQ; discriminate|].
+      unfold dar_verify. rewrite ER, V. cbn [bind]. rewrite Eb. cbn [bind]. rewrite skipn_app_len by reflexivity.
+      unfold uu. rewrite !app_length, Lbb, HU.
+      assert (LT : (4 + (16 + length sig2) <? 4 + 16)%nat = false) by (apply Nat.ltb_ge; lia). rewrite LT.
+      rewrite skipn_app_len by (now rewrite Lbb). rewrite firstn_app_len by (now rewrite HU). rewrite EQ. reflexivity.
+  - (* RSA protocols: no uuid in the message *)
+    right. exists ((b ++ bb) ++ ch'). split.
+    { unfold dar_tbs, dar_common. rewrite Ebb. cbn [bind]. now rewrite app_nil_r. } split.
+    { unfold dar_verify. rewrite ER, V. cbn [bind]. rewrite Eb. cbn [bind]. rewrite skipn_app_len by reflexivity.
+      unfold uu. cbn [app]. rewrite !app_length, Lbb.
+      assert (LT : (4 + length sig2 <? 4 + 0)%nat = false) by (apply Nat.ltb_ge; lia). rewrite LT.
+      rewrite firstn_app_len by (now rewrite Lbb). rewrite Dbb. cbn [andb].
+      do 4 f_equal. f_equal.
+      - f_equal. replace (b ++ bb ++ sig2) with ((b ++ bb) ++ sig2) by (now rewrite <- !app_assoc).
+        apply firstn_app_len. rewrite !app_length; lia.
+      - replace (b ++ bb ++ sig2) with ((b ++ bb) ++ sig2) by (now rewrite <- !app_assoc).
+        apply skipn_app_len. rewrite !app_length; lia. }
+    unfold uu. rewrite app_nil_r. split.
+    + intros H. apply app_inj_tail_len in H as [_ ->]; [|lia]. split; [reflexivity|discriminate].
+    + intros [-> _]. reflexivity.
+Qed.
+
+(* ====================================================================================== *)
+(* recorded defects (refutations by computation) and finite sweeps over the database        *)
+(* ====================================================================================== *)
+(* protocol 2.2 with two RoT keys: the credential SPSDK creates does not parse back (64-byte SHA-512 entries are cut as 66) *)
+Lemma dc_roundtrip_p521_refuted_lemma :
+  exists ks dck sig d b,
+    dc_create 0 1 4 ks 0 dck (zeros 16) 1 2 3 false = Ok (CEcc, d)
+    /\ dc_export CEcc (dc_with_sig d sig) = Ok b /\ dc_parse_class CEcc b = Err 2.
+Proof.
+  exists [g521; g521], g521, (repeat 7 132).
+  destruct (dc_create 0 1 4 [g521; g521] 0 g521 (zeros 16) 1 2 3 false) as [[c d]|] eqn:E; [|vm_compute in E; discriminate].
+  assert (Hc : c = CEcc) by (vm_compute in E; inversion E; reflexivity). subst c.
+  exists d. destruct (dc_export CEcc (dc_with_sig d (repeat 7 132))) as [b|] eqn:EB.
+  - exists b. split; [reflexivity|]. split; [reflexivity|].
+    vm_compute in E. inversion E; subst d. clear E. vm_compute in EB. inversion EB; subst b. clear EB.
+    vm_compute. reflexivity.
+  - exfalso. vm_compute in E. inversion E; subst d. vm_compute in EB. discriminate.
+Qed.
+
+(* DebugCredentialCertificate.parse picks the class from the facts of the SOCC's family ambassador; the credential was
+   created with the facts of its own family/revision *)
+Definition res_klass_eqb (a b : res (option klass)) : bool :=
+  match a, b with
+  | Ok (Some x), Ok (Some y) => (klass_id x =? klass_id y)%Z
+  | Ok None, Ok None => true
+  | Err j, Err k => j =? k
+  | _, _ => false
+  end.
+Definition amb_facts (socc : N) : option (N * N) :=
+  match find (fun r => fst r =? socc) g_socc_table with Some (_, (e, c, _, _)) => Some (e, c) | None => None end.
+Definition dispatch_agrees (fam : N * (N * N * N)) (v : N * N) : bool :=
+  let '(socc, (ele, cnt, _)) := fam in
+  match amb_facts socc with
+  | None => false
+  | Some (ae, ac) => res_klass_eqb (class_of ele cnt (fst v) (snd v)) (class_of ae ac (fst v) (snd v))
+  end.
+(* the recorded class: an EdgeLock container-version-1 revision whose SOCC is answered by a container-version-2 family,
+   any protocol version other than 2.0 *)
+Definition dispatch_known (fam : N * (N * N * N)) (v : N * N) : bool :=
+  let '(socc, (ele, cnt, _)) := fam in
+  match amb_facts socc with
+  | Some (ae, ac) => negb (ele =? 0) && (cnt =? 1) && (ac =? 2) && negb ((fst v =? 2) && (snd v =? 0))
+  | None => false
+  end.
+Lemma parse_dispatch_except_known_lemma :
+  forall fam v, In fam g_family_table -> In v g_versions -> dispatch_known fam v = false -> dispatch_agrees fam v = true.
+Proof.
+  assert (H : forallb (fun fam => forallb (fun v => dispatch_known fam v || dispatch_agrees fam v) g_versions) g_family_table = true)
+    by (vm_compute; reflexivity).
+  intros fam v Hf Hv Hk. rewrite forallb_forall in H. specialize (H fam Hf). rewrite forallb_forall in H. specialize (H v Hv).
+  rewrite Hk in H. exact H.
+Qed.
+Lemma parse_dispatch_refuted_lemma :
+  exists fam v, In fam g_family_table /\ In v g_versions /\ dispatch_agrees fam v = false.
+Proof.
+  assert (H : existsb (fun fam => existsb (fun v => negb (dispatch_agrees fam v)) g_versions) g_family_table = true)
+    by (vm_compute; reflexivity).
+  apply existsb_exists in H as (fam & Hf & H). apply existsb_exists in H as (v & Hv & H).
+  exists fam, v. repeat split; try assumption. now apply negb_true_iff.
+Qed.
+
+(* ====================================================================================== *)
+(* the RoT hash of a created RSA credential is C03's debug-credential hash of the key set   *)
+(* ====================================================================================== *)
+Lemma map_res_forall {A B} (f : A -> res B) (P : B -> Prop) : (forall a b, f a = Ok b -> P b) ->
+  forall l r, map_res f l = Ok r -> Forall P r /\ length r = length l.
+Proof.
+  intros HP. induction l as [|a l IH]; intros r; cbn [map_res].
+  - intros H; inversion H. split; [constructor|reflexivity].
+  - destruct (f a) as [b|] eqn:E; [|discriminate]. destruct (map_res f l) as [bs|] eqn:E2; [|discriminate].
+    intros H; inversion H; subst. destruct (IH bs eq_refl) as [HF HL]. split; [constructor; [now apply (HP a)|assumption]|cbn; lia].
+Qed.
+Lemma dc_rsa_item_length k b : dc_rsa_item k = Ok b -> length b = 32%nat.
+Proof.
+  unfold dc_rsa_item. destruct k as [n e|]; [|discriminate]. destruct (to_bytes 3 e); [|discriminate]. cbn [bind].
+  intros H; inversion H. apply dat_sha256_length.
+Qed.
+Lemma dc_rot_hash_rsa_lemma ele cnt socc ks rot_id dck uuid socu vu beacon fca d sig :
+  dc_create ele cnt socc ks rot_id dck uuid socu vu beacon fca = Ok (CRsa, d) ->
+  dc_calc_hash CRsa (dc_with_sig d sig) = dc_rsa_hash ks
+  /\ exists items, d_meta d = RMRsa items /\ map_res dc_rsa_item ks = Ok items
+                   /\ dc_calc_hash CRsa (dc_with_sig d sig) = Ok (sha256 (concat items ++ zeros (128 - length (concat items)))).
+Proof.
+  unfold dc_create. destruct (nth_error ks (N.to_nat rot_id)) as [rot|]; [|discriminate].
+  destruct (version_of_key rot) as [v|]; [|discriminate]. cbn [bind].
+  destruct (class_of ele cnt (fst v) (snd v)) as [[c|]|]; cbn [bind]; try discriminate.
+  destruct (rot_meta_create c ks rot_id fca) as [m|] eqn:EM; [|discriminate]. cbn [bind].
+  intros H; inversion H; subst. clear H. cbn [dc_with_sig d_meta].
+  unfold rot_meta_create in EM. destruct (4 <? nlen ks) eqn:E4; [discriminate|].
+  destruct (map_res dc_rsa_item ks) as [items|] eqn:EI; [|discriminate]. cbn [bind] in EM. inversion EM; subst m. clear EM.
+  destruct (map_res_forall dc_rsa_item (fun b => length b = 32%nat) dc_rsa_item_length ks items EI) as [HF HL].
+  assert (HN : (length items <= 4)%nat) by (apply N.ltb_ge in E4; unfold nlen in E4; lia).
+  assert (EF : rsa_meta_fill (zeros 128) 0 items = concat items ++ zeros (128 - length (concat items))).
+  { rewrite (rsa_meta_export_spec items HF HN), concat_app, concat_zero_chunks. f_equal.
+    rewrite (concat_length_k 32 items HF). f_equal. lia. }
+  assert (EH : dc_calc_hash CRsa {| d_major := fst v; d_minor := snd v; d_socc := socc; d_uuid := uuid; d_meta := RMRsa items;
+                                    d_dck := dck; d_socu := socu; d_vu := vu; d_beacon := beacon; d_rot := rot; d_sig := sig |}
+               = Ok (sha256 (concat items ++ zeros (128 - length (concat items))))).
+  { unfold dc_calc_hash. cbn [d_meta rotmeta_export bind]. now rewrite EF. }
+  split.
+  - rewrite EH. unfold dc_rsa_hash, dc_rsa_meta. rewrite E4, EI. reflexivity.
+  - exists items. repeat split; [exact EH].
+Qed.
